@@ -170,3 +170,13 @@ pub fn runtime(seed: u64) -> tokio::runtime::Runtime {
         .build()
         .expect("runtime")
 }
+
+/// Paused current-thread runtime WITH the I/O driver (E4: real loopback TCP sockets under a virtual clock).
+pub fn runtime_io(seed: u64) -> tokio::runtime::Runtime {
+    tokio::runtime::Builder::new_current_thread()
+        .enable_all()
+        .start_paused(true)
+        .rng_seed(tokio::runtime::RngSeed::from_bytes(&seed.to_le_bytes()))
+        .build()
+        .expect("runtime")
+}
